@@ -971,9 +971,14 @@ class REPEX_state:
                                 )
                                 if os.path.isfile(txt_adress):
                                     os.remove(txt_adress)
-                            os.rmdir(
-                                os.path.join(load_dir, pn_old_del, "accepted")
+                            acc_dir = os.path.join(
+                                load_dir, pn_old_del, "accepted"
                             )
+                            # files left behind by a store that was interrupted
+                            # and redone after a restart
+                            for leftover in os.listdir(acc_dir):
+                                os.remove(os.path.join(acc_dir, leftover))
+                            os.rmdir(acc_dir)
                             os.rmdir(os.path.join(load_dir, pn_old_del))
                         # pop the deleted path.
                         self.pn_olds.pop(pn_old_del)
